@@ -66,6 +66,11 @@ class Partial(object):
         self.violations = []
         self.samples = []
         self.outcomes = {}
+        self.sets = {}
+
+    def add(self, name, item):
+        """Record membership of a hashable item in a named set (merged by union across workers)."""
+        self.sets.setdefault(name, set()).add(item)
 
     def count(self, name, n=1):
         self.counters[name] = self.counters.get(name, 0) + n
@@ -129,6 +134,8 @@ class Run(object):
                 self.total.counters[k] = self.total.counters.get(k, 0) + v
         for k, v in part.outcomes.items():
             self.total.outcomes[k] = self.total.outcomes.get(k, 0) + v
+        for k, v in part.sets.items():
+            self.total.sets.setdefault(k, set()).update(v)
         for v in part.violations:
             if len(self.total.violations) < 2000:
                 self.total.violations.append(v)
@@ -153,6 +160,10 @@ class Run(object):
 
     def c(self, name):
         return self.total.counters.get(name, 0)
+
+    def n(self, name):
+        """Size of a named set."""
+        return len(self.total.sets.get(name, ()))
 
     # -- finishing ------------------------------------------------------
     def finish(self, coverage):
@@ -216,6 +227,7 @@ class Run(object):
         cov["counters"] = {k: v for k, v in sorted(self.total.counters.items())}
         cov["outcomes"] = {k: v for k, v in sorted(self.total.outcomes.items())}
         cov["distinct_outcomes"] = len(self.total.outcomes)
+        cov["set_sizes"] = {k: len(v) for k, v in sorted(self.total.sets.items())}
         cov["caps_hit"] = self.caps
         if self.caps:
             cov["exhaustive"] = False
